@@ -194,6 +194,8 @@ pub mod encode;
 pub mod filter;
 #[cfg(feature = "console_writer")]
 mod priv_io;
+#[cfg(feature = "verif_hooks")]
+pub mod verif;
 
 pub use config::{init_config, Config};
 
@@ -410,6 +412,14 @@ impl Logger {
         ))))
     }
 
+    /// Returns a handle to this (not necessarily global) logger.
+    #[cfg(feature = "verif_hooks")]
+    pub fn verif_handle(&self) -> Handle {
+        Handle {
+            shared: self.0.clone(),
+        }
+    }
+
     /// Set the max log level above which everything will be filtered.
     pub fn max_log_level(&self) -> LevelFilter {
         self.0.load().root.max_log_level()
@@ -427,6 +437,8 @@ impl log::Log for Logger {
 
     fn log(&self, record: &log::Record) {
         let shared = self.0.load();
+        #[cfg(feature = "verif_hooks")]
+        crate::verif::sync_point("log.loaded", 0);
         if let Err(errs) = shared
             .root
             .find(record.target())
@@ -459,8 +471,14 @@ impl Handle {
     /// Sets the logging configuration.
     pub fn set_config(&self, config: Config) {
         let shared = SharedLogger::new(config);
+        #[cfg(feature = "verif_hooks")]
+        crate::verif::sync_point("set_config.built", 0);
         log::set_max_level(shared.root.max_log_level());
+        #[cfg(feature = "verif_hooks")]
+        crate::verif::sync_point("set_config.max_set", 0);
         self.shared.store(Arc::new(shared));
+        #[cfg(feature = "verif_hooks")]
+        crate::verif::sync_point("set_config.stored", 0);
     }
 }
 
